@@ -25,8 +25,9 @@ def Attr.hasNs (a : Attr) : Bool := match a.ns with | some (_ :: _) => true | _ 
 /-- grouping key: `x.slug or DEFAULT_ATTR_NAME` -/
 def Attr.key (a : Attr) : Str := if a.slug.isEmpty then Tables.defaultAttrName else a.slug
 
-/-- `f"{name}_{index}"` -/
-def indexed (name : Str) (i : Nat) : Str := name ++ ['_'] ++ natStr i
+/-- `f"{name}_{index}"` (`str(index)` is core's `Nat.toDigits 10`, which comes
+with the inverse `Nat.ofDigitChars_ten_toDigits`) -/
+def indexed (name : Str) (i : Nat) : Str := name ++ ['_'] ++ Nat.toDigits 10 i
 
 /-- `while alnum(f"{name}_{index}") in reserved: index += 1`, starting at `i`.
 `fuel` bounds the loop; `reserved.length + 1` always suffices
